@@ -107,6 +107,10 @@ use tokio::sync::watch;
 use vh::util::*;
 
 const EXCHANGE: ExchangeId = ExchangeId::BinanceSpot;
+/// dataset items are one hour of exchange time apart; the wall-clock delta `HistoricalClock` adds
+/// on top of the exchange time of the last processed event must stay below this slack
+const SPACING_S: i64 = 3600;
+const CLOCK_SLACK_MS: i64 = 300_000;
 /// wall-clock bounds: exceeding one is a tool error (exit 2), never a verdict
 const GATE_TIMEOUT: Duration = Duration::from_secs(120);
 const SCENARIO_TIMEOUT: Duration = Duration::from_secs(600);
@@ -173,7 +177,7 @@ impl Processor<&AccountEvent> for RecGlobal {
             AccountEventKind::BalanceSnapshot(b) => (
                 "balance",
                 String::new(),
-                json!({"asset": b.0.asset.index(), "total": d(b.0.balance.total), "free": d(b.0.balance.free)}),
+                json!({"asset": b.0.asset.index(), "total": d(b.0.balance.total), "free": d(b.0.balance.free), "ts_ms": untime_ms(b.0.time_exchange)}),
             ),
             AccountEventKind::OrderSnapshot(o) => {
                 let st = match &o.0.state {
@@ -192,7 +196,7 @@ impl Processor<&AccountEvent> for RecGlobal {
                 "trade",
                 String::new(),
                 json!({"order_id": t.order_id.0.as_str(), "inst": t.instrument.index(), "side": format!("{:?}", t.side),
-                       "price": d(t.price), "qty": d(t.quantity), "fees": d(t.fees.fees)}),
+                       "price": d(t.price), "qty": d(t.quantity), "fees": d(t.fees.fees), "ts_ms": untime_ms(t.time_exchange)}),
             ),
         };
         self.acct_healthy = true;
@@ -278,6 +282,9 @@ pub struct Sink {
     pub calls: usize,
     pub account_reconnects: usize,
     pub tag_mismatch: bool,
+    pub balance_ts: Vec<i64>,
+    pub fill_ts: Vec<Value>,
+    pub times: Value,
 }
 
 #[derive(Debug, Clone)]
@@ -287,6 +294,15 @@ pub struct ActStrategy {
     pub acts: Arc<Vec<Act>>,
     pub sink: Arc<Mutex<Sink>>,
     pub shared: Arc<Shared>,
+}
+
+/// The dataset item at whose exchange time a timestamp lies (within the slack), 0 if at none.
+fn window_of(ts_ms: i64) -> i64 {
+    if ts_ms < 0 {
+        return 0;
+    }
+    let j = ts_ms / (SPACING_S * 1000);
+    if j >= 1 && ts_ms - j * SPACING_S * 1000 <= CLOCK_SLACK_MS { j } else { 0 }
 }
 
 fn cid_of(run: usize, k: u32) -> String {
@@ -299,7 +315,7 @@ fn k_of_cid(cid: &str) -> i64 {
 /// Trace line with every field present (TLC reads records uniformly).
 fn line(a: &str) -> Value {
     json!({"a": a, "id": 0, "tag": 0, "kind": "-", "k": 0, "sent": [], "nc": 0, "na": 0,
-           "n": 0, "recs": [], "acts": [], "sumok": true})
+           "n": 0, "recs": [], "acts": [], "sumok": true, "tsk": 0, "ck": false, "ts_ms": 0})
 }
 
 /// Projection of the schedule-independent facts of a run's engine state.
@@ -420,15 +436,23 @@ impl ActStrategy {
                         "balance" => {
                             // the j-th balance snapshot answers the j-th order the exchange accepted
                             s.n_bal += 1;
+                            l["ts_ms"] = detail["ts_ms"].clone();
+                            l["tsk"] = json!(window_of(detail["ts_ms"].as_i64().unwrap_or(-1)));
+                            s.balance_ts.push(detail["ts_ms"].as_i64().unwrap_or(-1));
                             s.fired.get(s.n_bal - 1).map(|k| *k as i64).unwrap_or(-1)
                         }
                         "trade" => {
                             s.n_trade += 1;
+                            l["ts_ms"] = detail["ts_ms"].clone();
+                            l["tsk"] = json!(window_of(detail["ts_ms"].as_i64().unwrap_or(-1)));
                             // the mock exchange numbers accepted orders 0,1,2.. in arrival order
                             let k = detail["order_id"].as_str().and_then(|x| x.parse::<usize>().ok())
                                 .and_then(|j| s.fired.get(j)).map(|k| *k as i64).unwrap_or(-1);
                             let mut f = detail.clone();
                             f["k"] = json!(k);
+                            // (timestamps are judged by the clock clause, not compared exactly)
+                            s.fill_ts.push(json!({"k": k, "ts_ms": f["ts_ms"].clone()}));
+                            f.as_object_mut().unwrap().remove("ts_ms");
                             s.fills.push(f);
                             k
                         }
@@ -446,6 +470,10 @@ impl ActStrategy {
         let (facts, digest) = project_facts(state);
         s.facts = facts;
         s.digest = digest;
+        s.times = json!({"position_enter_ms": state.instruments.0.values().map(|is| match &is.position.current {
+            None => Value::Null,
+            Some(p) => json!(untime_ms(p.time_enter)),
+        }).collect::<Vec<_>>()});
         last
     }
 
@@ -636,6 +664,8 @@ pub struct SlowMarketData {
     events: Arc<Vec<Item>>,
     time_first: DateTime<Utc>,
     gaps_ms: Arc<Vec<u64>>,
+    /// the j-th stream is (1 + j % 3) times slower: concurrent runs progress at different rates
+    next: AtomicUsize,
 }
 
 impl BacktestMarketData for SlowMarketData {
@@ -648,11 +678,12 @@ impl BacktestMarketData for SlowMarketData {
     async fn stream(&self) -> Result<impl Stream<Item = Item> + Send + 'static, BarterError> {
         let events = Arc::clone(&self.events);
         let gaps = Arc::clone(&self.gaps_ms);
+        let pace = 1 + (self.next.fetch_add(1, Ordering::SeqCst) % 3) as u64;
         Ok(futures::stream::unfold(0usize, move |idx| {
             let events = Arc::clone(&events);
             let gaps = Arc::clone(&gaps);
             async move {
-                tokio::time::sleep(Duration::from_millis(gaps[idx.min(gaps.len() - 1)])).await;
+                tokio::time::sleep(Duration::from_millis(pace * gaps[idx.min(gaps.len() - 1)])).await;
                 if idx >= events.len() {
                     return None;
                 }
@@ -838,7 +869,10 @@ fn plan(seed: u64, tier: &str) -> Vec<Value> {
         }
         points.sort();
         let kmax = grid.iter().map(|g| g.0).max().unwrap();
-        let variants: Vec<Value> = (0..kmax).map(|_| random_acts(&mut rng, &points, 5)).collect();
+        let mut variants: Vec<Value> = (0..kmax).map(|_| random_acts(&mut rng, &points, 5)).collect();
+        // one strategy never trades: its run is never held back and races through the dataset
+        // (concurrent runs progress at very different rates)
+        variants[1] = json!([]);
         let latency = if dsi % 2 == 0 { 0 } else { 2 };
         // every parameter set alone
         for (vi, v) in variants.iter().enumerate() {
@@ -1029,6 +1063,7 @@ fn run_scenario(scn: &Value, trace: &mut Out, results: &mut Out, totals: &mut Va
             events: events.clone(),
             time_first: first_item_time(&events),
             gaps_ms: Arc::new(gaps(n, data_seed, scn["gaps"].as_str().unwrap_or("long"))),
+            next: AtomicUsize::new(0),
         };
         let args = Arc::new(BacktestArgsConstant { instruments, executions, market_data: md, summary_interval: Daily, engine_state });
         call_run_backtests(&rt, args, dynamics, false)
@@ -1050,6 +1085,10 @@ fn run_scenario(scn: &Value, trace: &mut Out, results: &mut Out, totals: &mut Va
         Ok(Ok(Ok(v))) => ("ok".to_string(), v),
     };
 
+    // timestamps are schedule-independent (up to the wall-clock slack) when nothing of the dataset
+    // can be processed between an order's event and the stamping of its request: gated source, or
+    // paused clock with a (virtual) pause before every item
+    let clock_checked = gated || (paused && scn["gaps"].as_str().unwrap_or("long") != "one");
     let recs_nonempty: Vec<u32> = recs.clone();
     for (r, o) in outs.iter().enumerate() {
         let sk = o.sink.lock();
@@ -1063,7 +1102,11 @@ fn run_scenario(scn: &Value, trace: &mut Out, results: &mut Out, totals: &mut Va
         reset["kind"] = json!(format!("{name}/{r}"));
         trace.line(&reset);
         for l in &sk.lines {
-            if l["a"] == "Disc" {
+            if clock_checked && l["a"] == "Account" && (l["kind"] == "trade" || l["kind"] == "balance") {
+                let mut l = l.clone();
+                l["ck"] = json!(true);
+                trace.line(&l);
+            } else if l["a"] == "Disc" {
                 // (a Reconnecting item carries no tag: it belongs to the stream the run is fed by)
                 let mut l = l.clone();
                 l["tag"] = json!(tag);
@@ -1109,7 +1152,8 @@ fn run_scenario(scn: &Value, trace: &mut Out, results: &mut Out, totals: &mut Va
             "consumed": sk.nc, "account_events": sk.na, "orders_fired": n_orders, "order_responses": sk.n_resp,
             "balances_seen": sk.n_bal, "trades_seen": sk.n_trade, "snapshots_seen": sk.n_snap,
             "order_response_timeouts": timeouts, "account_reconnects": sk.account_reconnects,
-            "fills": sk.fills, "facts": sk.facts, "digest": sk.digest, "summary": sum_json, "summary_id_ok": id_ok, "sumok": sumok,
+            "fills": sk.fills, "fill_ts": sk.fill_ts, "balance_ts": sk.balance_ts, "times": sk.times, "clock_checked": clock_checked,
+            "fired": sk.fired, "facts": sk.facts, "digest": sk.digest, "summary": sum_json, "summary_id_ok": id_ok, "sumok": sumok,
             "order_states": sk.order_states, "anomalies": sk.anomalies,
             "extra_streams": extra_streams.load(Ordering::SeqCst), "wall_s": wall,
         }));
